@@ -310,3 +310,33 @@ package openapi3filter
 //@        ==> result.1 && result.2 == nil && len(result.0) == splitLen(old(qVals(d, param)[0]), qDelim(sm.Style))
 //@         && (forall j int :: 0 <= j && j < len(result.0) ==> result.0[j] == itemValue(splitAt(old(qVals(d, param)[0]), qDelim(sm.Style), j), schema.Value.Items))
 //@   tag C05 C10
+
+// ---- presence, emptiness and schema check of the decoded value (ValidateParameter). What the
+// style decoding layer (decodeStyledParameter, decodeValue) delivers is named by decValue / decFound /
+// decOK; the dispatch through compositions in decodeValue is not under contract.
+//@ spec decValue(p *openapi3.Parameter, in *RequestValidationInput) any
+//@ spec decFound(p *openapi3.Parameter, in *RequestValidationInput) bool
+//@ spec decOK(p *openapi3.Parameter, in *RequestValidationInput) bool
+//@ func decodeStyledParameter
+//@   modifies *
+//@   preserves all(openapi3), all(routers), Options.*, RequestValidationInput.*, http.Request.*, url.URL.*
+//@   defines result.0 == decValue(param, input) && result.1 == decFound(param, input) && ((result.2 == nil) <==> decOK(param, input))
+//@ spec nilValue(v any) bool
+//@ func isNilValue
+//@   modifies nothing
+//@   defines result == nilValue(value)
+//@   ensures [nil-is-nil] value == nil ==> result
+//@   tag C05 C10
+//@ spec hasDefault(s *openapi3.Schema) bool := s.Default != nil || (exists k int :: 0 <= k && k < len(s.AllOf) && s.AllOf[k].Value.Default != nil)
+//@ global nonnil ErrInvalidRequired ErrInvalidEmptyValue
+//@ extend func ValidateParameter
+//@   assuming @C05 forall k int :: 0 <= k && k < len(parameter.Schema.Value.AllOf) ==> parameter.Schema.Value.AllOf[k] != nil && parameter.Schema.Value.AllOf[k].Value != nil
+//@   assuming @C05 input != nil && parameter != nil && parameter.Content == nil && parameter.Schema != nil && parameter.Schema.Value != nil
+//@   assuming @C05 (input.Options != nil && input.Options.SkipSettingDefaults) || !hasDefault(parameter.Schema.Value)
+//@   ensures @C05 [text-that-is-no-serialisation-rejected] !old(decOK(parameter, input)) ==> result != nil
+//@   ensures @C05 [absent-required-is-missing] old(decOK(parameter, input)) && old(parameter.Required) && !old(decFound(parameter, input)) ==> result != nil
+//@   ensures @C05 [absent-optional-accepted] old(decOK(parameter, input)) && !old(parameter.Required) && !old(decFound(parameter, input)) && old(decValue(parameter, input)) == nil ==> result == nil
+//@   ensures @C05 [empty-value] old(decOK(parameter, input)) && old(decFound(parameter, input)) && nilValue(old(decValue(parameter, input))) ==> ((result == nil) <==> old(parameter.AllowEmptyValue))
+//@   ensures @C05 [schema-decides] old(decOK(parameter, input)) && (old(decFound(parameter, input)) || !old(parameter.Required)) && !nilValue(old(decValue(parameter, input)))
+//@        ==> ((result == nil) <==> visitOK(old(parameter.Schema.Value), old(decValue(parameter, input))))
+//@   tag C05
